@@ -20,7 +20,7 @@ EXTENDS Codec, TLC
 None == [none |-> TRUE]
 
 \* one observable output that is due before the transport may be read again
-Due(k, op, fin, data, cls) == [k |-> k, op |-> op, fin |-> fin, data |-> data, cls |-> cls]
+Due(k, op, fin, data, cls) == [k |-> k, op |-> op, fin |-> fin, data |-> data, cls |-> cls, opt |-> FALSE]
 DSend(op, payload) == Due("send", op, 1, payload, "")
 DRet(op, fin, data) == Due("ret", op, fin, data, "")
 DRaise(cls)         == Due("raise", 0, 0, <<>>, cls)
@@ -35,7 +35,13 @@ InitState(stream, fireCont, skipUtf8) ==
    fireCont |-> fireCont, skipUtf8 |-> skipUtf8,
    failed |-> FALSE,         \* a protocol/payload error was raised or a close frame was returned:
                              \* RFC 6455 says nothing about what follows, only the generic clauses stay
-   pings |-> <<>>, pongs |-> <<>>, closeReplies |-> 0, nframes |-> 0, faults |-> <<>>]
+   pings |-> <<>>, pongs |-> <<>>, closeReplies |-> 0, nframes |-> 0, faults |-> <<>>,
+   \* connection-level part (Conn.tla, property C08)
+   strict |-> FALSE,          \* TRUE: the stream is known to be legal, keep judging after a close frame
+   ownCloses |-> 0,           \* close frames written by close() or as the automatic reply
+   explicitCloses |-> 0,      \* send_close() calls of the application
+   tclosed |-> FALSE,         \* the transport has been closed
+   callT |-> 0, closeTimeout |-> 0, closing |-> FALSE]
 
 (***************************************************************************)
 (* Frame-level meaning (what a complete frame does), message-level calls.  *)
@@ -67,9 +73,12 @@ ProcMsg(s, f) ==
                          (IF s.call.control THEN <<DRet(OpPing, 1, f.payload)>> ELSE <<>>)]
   ELSE IF f.op = OpPong THEN
     [base EXCEPT !.due = IF s.call.control THEN <<DRet(OpPong, 1, f.payload)>> ELSE <<>>]
-  ELSE \* close
-    [base EXCEPT !.connected = FALSE, !.closeReplies = @ + 1,
-                 !.due = <<DSend(OpClose, CloseBody(1000, <<>>)), DRet(OpClose, 1, f.payload)>>]
+  ELSE \* close: answered once (C08); a reply after the application's own send_close() is tolerated
+    IF s.ownCloses = 0
+    THEN [base EXCEPT !.connected = FALSE, !.closeReplies = @ + 1, !.ownCloses = @ + 1,
+                      !.due = <<[DSend(OpClose, CloseBody(1000, <<>>)) EXCEPT !.opt = s.explicitCloses > 0],
+                                DRet(OpClose, 1, f.payload)>>]
+    ELSE [base EXCEPT !.connected = FALSE, !.due = <<DRet(OpClose, 1, f.payload)>>]
 
 (* recv_frame(): the raw call - decoding and frame legality only *)
 ProcRaw(s, f) ==
@@ -81,9 +90,10 @@ ProcRaw(s, f) ==
 Proc(s, f) == IF s.call.api = "recv_frame" THEN ProcRaw(s, f) ELSE ProcMsg(s, f)
 
 (* Process every frame that has completely arrived, in order, until something observable is due *)
+RecvApis == {"recv", "recv_data", "recv_data_frame", "recv_frame"}
 RECURSIVE Drain(_)
 Drain(s) ==
-  IF ~s.call.active \/ s.due # <<>> \/ ~s.sockOpen THEN s
+  IF ~s.call.active \/ s.call.api \notin RecvApis \/ s.due # <<>> \/ ~s.sockOpen THEN s
   ELSE LET f == ParseL(s.stream, s.fpos, s.taken)
        IN IF ~f.ok THEN s ELSE Drain(Proc(s, f))
 
@@ -120,6 +130,9 @@ ClsOf(c) == CASE c = "Protocol" -> "WebSocketProtocolException"
               [] c = "Timeout"  -> "WebSocketTimeoutException"
               [] c = "Closed"   -> "WebSocketConnectionClosedException"
               [] OTHER -> c
+
+\* an optional write that did not happen is dropped when the next obligation is looked at
+SkipOpt(s) == IF s.due # <<>> /\ Head(s.due).opt THEN [s EXCEPT !.due = Tail(@), !.ownCloses = @ - 1, !.closeReplies = @ - 1] ELSE s
 
 Res(s, ok, why) == [s |-> s, ok |-> ok, why |-> why]
 Fail(s, why) == Res(s, FALSE, why)
@@ -171,7 +184,7 @@ StepTSend(s, e) ==
   ELSE IF s.failed THEN Res(s, TRUE, "")
   ELSE IF s.due = <<>> \/ Head(s.due).k # "send" THEN
        Fail(s, IF f.ok /\ f.op = OpPong THEN "C07.unsolicited_or_duplicate_pong"
-               ELSE IF f.ok /\ f.op = OpClose THEN "C08.unsolicited_close" ELSE "C07.unsolicited_write")
+               ELSE IF f.ok /\ f.op = OpClose THEN "C08.more_than_one_close_frame_on_own_initiative" ELSE "C07.unsolicited_write")
   ELSE LET d == Head(s.due) IN
        IF ~f.ok \/ f.next # Len(e.bytes) + 1 THEN Fail(s, "C01.reply_not_one_whole_frame")
        ELSE IF f.masked # 1 \/ f.rsv # 0 \/ f.fin # 1 \/ f.form # (IF f.len <= 125 THEN 0 ELSE 2)
@@ -184,7 +197,8 @@ StepTSend(s, e) ==
 
 EndCall(s) == [s EXCEPT !.call = NoCall, !.due = <<>>]
 
-StepRet(s, e) ==
+StepRet(s0, e) ==
+  LET s == SkipOpt(s0) IN
   IF ~s.call.active THEN Fail(s, "harness.ret_without_call")
   ELSE IF s.failed THEN Res(EndCall(s), TRUE, "")
   ELSE IF s.due = <<>> THEN
@@ -204,7 +218,7 @@ StepRet(s, e) ==
                     THEN "C04.reassembled_message_differs" ELSE "C02.decoded_result_differs")
        ELSE IF e.connected # s.connected THEN Fail(s, "C08.connected_flag")
        ELSE LET s1 == EndCall(Obs(s, <<"ret", d.op, d.fin, d.data>>))
-            IN Res([s1 EXCEPT !.failed = (d.op = OpClose /\ s.call.api # "recv_frame")], TRUE, "")
+            IN Res([s1 EXCEPT !.failed = (d.op = OpClose /\ s.call.api # "recv_frame" /\ ~s.strict)], TRUE, "")
 
 StepRaise(s, e) ==
   IF ~(e.doc \/ e.terr) THEN Fail(s, "C17.undocumented_exception")
@@ -229,19 +243,19 @@ StepRaise(s, e) ==
                       [] d.cls = "Payload"  -> "C06.wrong_exception_for_ill_formed_text"
                       [] d.cls = "Timeout"  -> "C03.timeout_not_reported_as_timeout"
                       [] OTHER -> "C08.loss_not_reported_as_connection_closed")
-       ELSE IF d.cls = "Closed" /\ ~(e.sock_none /\ ~e.connected) THEN Fail(s, "C08.transport_not_released_on_loss")
+       ELSE IF d.cls = "Closed" /\ ~(e.sock_none /\ ~e.connected /\ e.tclosed) THEN Fail(s, "C08.transport_not_released_on_loss")
        ELSE LET s1 == EndCall(Obs(s, <<"raise", d.cls>>))
             IN Res([s1 EXCEPT !.failed = (d.cls \in {"Protocol", "Payload"})], TRUE, "")
 
 Step(s, e) ==
   CASE e.ev = "call"     -> StepCall(s, e)
-    [] e.ev = "trecv"    -> StepTRecv(s, e)
-    [] e.ev = "ttimeout" -> StepTimeout(s, e)
-    [] e.ev = "teof"     -> StepEof(s, e)
-    [] e.ev = "terr"     -> StepTErr(s, e)
+    [] e.ev = "trecv"    -> StepTRecv(SkipOpt(s), e)
+    [] e.ev = "ttimeout" -> StepTimeout(SkipOpt(s), e)
+    [] e.ev = "teof"     -> StepEof(SkipOpt(s), e)
+    [] e.ev = "terr"     -> StepTErr(SkipOpt(s), e)
     [] e.ev = "tsend"    -> StepTSend(s, e)
     [] e.ev = "ret"      -> StepRet(s, e)
-    [] e.ev = "raise"    -> StepRaise(s, e)
+    [] e.ev = "raise"    -> StepRaise(SkipOpt(s), e)
     [] e.ev = "hang"     -> Fail(s, "C17.no_progress")
     [] e.ev = "tbad"     -> Fail(s, "C08.transport_touched_after_close")
     [] OTHER             -> Fail(s, "harness.unknown_event")
